@@ -240,6 +240,155 @@ pub fn faults(ctx: &Ctx) {
     }
 }
 
+/// a file of > 300 pages: cloud A (26000 points, ~306 pages), an image blob, cloud B (300 points)
+fn far_file() -> Vec<u8> {
+    let a = cloud(cat::xyz(cat::F32), 26000, 1);
+    let b = cloud(cat::xyz(cat::F32), 300, 2);
+    let p = Program { guid: "g".into(), ops: vec![Op::Cloud(a), Op::Image(image(0, false, 3000, 3)), Op::Cloud(b)], ..Default::default() };
+    let dev = Dev::empty();
+    let h = dev.handle();
+    let _ = run_program(dev, &p, &ExecOpts::default());
+    h.snapshot()
+}
+
+/// Long-distance histories: one page q behind the big cloud (or inside its tail) is damaged; every
+/// operation that touches q is run after every operation that read all / some of the ~300 pages in
+/// front of it, so any two pages at any distance <= 300 have been visited in this order.
+pub fn far(ctx: &Ctx) {
+    let base = far_file();
+    let pages = base.len() / 1024;
+    if pages < 300 {
+        ctx.machinery_error(format!("far file has only {pages} pages"));
+        return;
+    }
+    // damaged page: the last 12 pages in front of the XML section, 4 pages in the tail of cloud A, or none
+    let rep = e57spec::decode::read_header(&base).ok();
+    let xml_page = rep.map(|h| (h.xml_phys_offset / 1024) as usize).unwrap_or(pages - 1);
+    let qi = ctx.pick("damaged-page", 17);
+    let mut bytes = base.clone();
+    let q = if qi < 12 {
+        Some(xml_page - 1 - qi)
+    } else if qi < 16 {
+        Some(xml_page - 14 - (qi - 12) * 60)
+    } else {
+        None
+    };
+    if let Some(q) = q {
+        bytes[q * 1024 + 300 + qi] ^= 1 << (qi % 8);
+    }
+    let Ok(r0) = E57Reader::new(Dev::new(bytes.clone())) else {
+        ctx.machinery_error("far file cannot be opened".to_string());
+        return;
+    };
+    let blobs = blob_list(&r0);
+    drop(r0);
+    let ops = alphabet(2, blobs.len());
+    let fresh = match fresh_results(&bytes, &ops) {
+        Ok((f, _)) => f,
+        Err(e) => {
+            ctx.machinery_error(format!("fresh results: {e}"));
+            return;
+        }
+    };
+    ctx.describe(|| format!("{pages}-page file, page {q:?} damaged: all ordered pairs of the {} read operations on one reader", ops.len()));
+    let mut failing = 0;
+    for a in 0..ops.len() {
+        for b in 0..ops.len() {
+            ctx.evals(1);
+            let res = guarded(|| {
+                let mut r = E57Reader::new(Dev::new(bytes.clone())).ok()?;
+                let oa = exec(&mut r, &ops[a], &blobs);
+                if oa != fresh[a] {
+                    return Some((a, oa, vec![a]));
+                }
+                let ob = exec(&mut r, &ops[b], &blobs);
+                if ob != fresh[b] {
+                    return Some((b, ob, vec![a, b]));
+                }
+                None
+            });
+            match res {
+                Err(pi) => {
+                    ctx.violation(format!("{P}/panic/{}", pi.class()), format!("panic at {} ({}) in [{}; {}] on the {pages}-page file", pi.loc, pi.msg, ops[a].name(), ops[b].name()));
+                    return;
+                }
+                Ok(Some((o, out, hist))) => {
+                    let hs: Vec<String> = hist.iter().map(|x| ops[*x].name()).collect();
+                    ctx.violation(
+                        format!("{P}/history-dependent/{}", ops[o].name().split('(').next().unwrap_or("")),
+                        format!("{pages}-page file with page {q:?} damaged: history [{}]: the last operation returns {} but on a freshly opened reader it returns {}", hs.join("; "), out.short(), fresh[o].short()),
+                    );
+                    return;
+                }
+                Ok(None) => {
+                    if !fresh[a].is_ok() || !fresh[b].is_ok() {
+                        failing += 1;
+                    }
+                }
+            }
+        }
+    }
+    ctx.count_n("pairs:with-a-failing-op", failing);
+    ctx.observe_u64(qi as u64);
+    ctx.nontrivial();
+}
+
+/// Page-reader level: a 300-page image with one damaged page q; on one reader, for every other
+/// page a: read from a, read from q (must fail), read from a again (must deliver the data), i.e.
+/// every ordered pair of pages at every distance, with the failure in between.
+pub fn pairs(ctx: &Ctx) {
+    use e57::verif::PagedReader;
+    use std::io::Read;
+    const PAGES: usize = 300;
+    let logical: Vec<u8> = (0..PAGES * 1020).map(|i| ((i as u32).wrapping_mul(2654435761) >> 13) as u8).collect();
+    let mut img = page::seal(&logical);
+    let group = ctx.pick("damaged-page-group", PAGES / 10);
+    let kind = ctx.pick("damage", 2);
+    ctx.describe(|| format!("{PAGES}-page image; damaged page q in {}..{} ({}); for every page a: read a, read q, read a on one reader", group * 10, group * 10 + 10, ["payload bit", "checksum bit"][kind]));
+    for q in group * 10..group * 10 + 10 {
+        let off = q * 1024 + if kind == 0 { (q * 7) % 1020 } else { 1020 + q % 4 };
+        img[off] ^= 0x10;
+        let res = guarded(|| {
+            let mut r = PagedReader::new(Dev::new(img.clone()), 1024).map_err(|e| format!("PagedReader::new: {e}"))?;
+            let mut buf = [0u8; 8];
+            for a in 0..PAGES {
+                if a == q {
+                    continue;
+                }
+                for round in 0..2 {
+                    r.seek_physical((a * 1024 + 100) as u64).map_err(|e| format!("seek to page {a}: {e}"))?;
+                    match r.read(&mut buf) {
+                        Ok(8) if buf[..] == logical[a * 1020 + 100..a * 1020 + 108] => {}
+                        other => return Err(format!("read from intact page {a} (round {round}, damaged page {q}) returned {other:?} / wrong data")),
+                    }
+                    if round == 0 {
+                        r.seek_physical((q * 1024 + 100) as u64).map_err(|e| format!("seek to page {q}: {e}"))?;
+                        if let Ok(n) = r.read(&mut buf) {
+                            return Err(format!("read from damaged page {q} after reading page {a} returned Ok({n})"));
+                        }
+                    }
+                }
+            }
+            Ok(())
+        });
+        img[off] ^= 0x10;
+        ctx.evals(PAGES as u64);
+        match res {
+            Err(pi) => {
+                ctx.violation(format!("{P}/panic/{}", pi.class()), format!("panic at {} ({})", pi.loc, pi.msg));
+                return;
+            }
+            Ok(Err(d)) => {
+                ctx.violation(format!("{P}/page-reader-history/{}", if d.contains("damaged page") && d.contains("Ok(") { "damaged-page-served" } else { "other" }), d);
+                return;
+            }
+            Ok(Ok(())) => {}
+        }
+    }
+    ctx.observe_u64((group * 2 + kind) as u64);
+    ctx.nontrivial();
+}
+
 /// fixpoint BFS over the page-cache states of one reader (E2)
 pub fn extra(thorough: bool, _seed: u64, deadline: Instant) -> ExtraResult {
     let t0 = Instant::now();
